@@ -115,6 +115,7 @@ type nodeWorld struct {
 	afterItem      []func(it Item)
 	skipItem       func(it Item) bool
 	afterHostStart func(h *simHost)
+	blacklisted    map[peer.ID]bool
 	afterHeartbeat []func(pre, post *snapshot)
 	beforeItem     []func(it Item)
 	atEnd          []func()
@@ -354,7 +355,11 @@ func (v *simValidator) validate(ctx context.Context, from peer.ID, msg *Message)
 		_, ok := w.s.park(fmt.Sprintf("val%d|%x", v.idx, shortHash([]byte(mid))), mid, nil, done)
 		if !ok {
 			call.ctxDone = true
-			call.verdict = ValidationIgnore
+			if !w.plan.kb("val_ctx_keep") {
+				call.verdict = ValidationIgnore
+			}
+			// (val_ctx_keep: a validator that gives up when its context ends and answers what it had
+			// decided anyway - the typical bool validator returning false)
 		}
 	}
 	v.mu.Lock()
@@ -783,6 +788,10 @@ func (w *nodeWorld) exec1(it Item) {
 	case "blacklist":
 		if fp := w.fake(int(it.a(0))); fp != nil {
 			fp.disturbed = true
+			if w.blacklisted == nil {
+				w.blacklisted = map[peer.ID]bool{}
+			}
+			w.blacklisted[fp.id] = true
 			s.do("BlacklistPeer "+fp.name, func() any { w.n.ps.BlacklistPeer(fp.id); return nil })
 		}
 		return
